@@ -44,7 +44,7 @@ def _alarm(signum, frame):
     raise Watchdog()
 
 
-REAL_BACKSTOP_S = 60.0
+REAL_BACKSTOP_S = 900.0
 
 
 def install_watchdog():
